@@ -100,6 +100,11 @@ def monitor_missing_dep_never_fails(run, where, inv, meta, hist, ii, rep):
                     return
 
 
+def monitor_reports_do_not_order(run, where, inv, meta, hist, ii, rep):
+    """discovered dependencies never change build order: only declared inputs may hold a step back (sched.monitor_no_idle_wait)"""
+    S.monitor_no_idle_wait(run, where, inv, meta.get("j", 1), meta.get("k"))
+
+
 def monitor_discovered_never_blocks(run, where, inv, meta, hist, ii, rep):
     """discovered dependencies never change build order and never block: an invocation in which no command failed must not
     abort, and must not leave a wanted step undecided"""
@@ -149,5 +154,5 @@ def main(tier, seed, replay=None):
         # one history in five: a reported dependency that is itself generated, with no declared path to its producer
         return gen_history_gendep(rng) if rng.random() < 0.2 else gen_history(rng, **kw)
 
-    return world_check(PROP, THEOREMS, tier, seed, [monitor_showincludes, monitor_discovered_never_blocks, monitor_missing_dep_never_fails, monitor_null_build, monitor_one_node_per_location],
+    return world_check(PROP, THEOREMS, tier, seed, [monitor_showincludes, monitor_discovered_never_blocks, monitor_reports_do_not_order, monitor_missing_dep_never_fails, monitor_null_build, monitor_one_node_per_location],
                        replay=replay, scen_gen=scen, note="F10: `-t restat` (adopt) empties the discovered list of the steps it marks up to date")
